@@ -320,10 +320,19 @@ class B(object):
     def block(self, ctx, ind, depth, min_stmts=1, max_stmts=3):
         lines = []
         n = self.draw(st.integers(min_stmts, max_stmts))
+        prev_simple = False
         for _ in range(n):
             if self.budget[0] <= 0:
                 break
-            lines.extend(self.stmt(ctx, ind, depth))
+            new = self.stmt(ctx, ind, depth)
+            simple = len(new) == 1 and not new[0].rstrip().endswith(':') and not new[0].lstrip().startswith(('@', 'global ', 'nonlocal ', 'import ', 'from '))
+            if simple and prev_simple and self.chance(20):
+                # two simple statements on one physical line: a binding between two reads of the same line
+                lines[-1] = lines[-1] + '; ' + new[0].lstrip()
+                self.features.add('statements-joined')
+            else:
+                lines.extend(new)
+            prev_simple = simple and len(new) == 1
         if not lines:
             lines.append(ind + 'pass')
         return lines
